@@ -37,8 +37,10 @@ def _work(task):
     img = _IMAGES[key]
     try:
         model = M.StreamModel(_CTX, fmt_cls)
-        outs = model.run(img, SCHED[sched_name],
-                         second_run=SECOND_RUN[0])
+        queries = sched_name.endswith('+queries')
+        outs = model.run(img, SCHED[sched_name.split('+')[0]],
+                         second_run=SECOND_RUN[0] and not queries,
+                         mid_safety=queries)
     except AnalysisError as e:
         return task, {'failure': 'analysis: %s' % e}
     except Exception as e:    # pragma: no cover - reported as undecided
